@@ -18,6 +18,11 @@ time of day; documented header keywords, one role per header): the suggestion is
 inspect reported, selects the statement's own date / description / amount cells from every row, and - when it names the format the dates
 were written with - parse_generic_csv reads exactly the statement's transactions with it.  Props/C18 `accepted_date_format_has_no_comma`,
 `comma_date_format_never_roundtrips`: a reported date format with a comma can never round-trip.
+Custom column names that look reserved (NEAR_POOL: desc, amt, loc, dates, description2, amount_usd, field1, look-alikes ...): ordinary captures
+at their written positions in both modes (`gen_near_miss` + the pool of every arrangement stream; Props/C18
+`nonreserved_name_is_captured_at_its_position`).  Headers carrying keywords of several roles (Payment Date, Debit Description, City Name ...):
+`gen_multirole`; `oracle_detection` = pairwise distinct columns + the first fit stated role by role (`first_fit`; Props/C18
+`detect_first_fit`, `detect_header_fills_at_most_one_role`, `detect_fails_only_when_a_required_role_is_unserved`), on every header row.
 """
 import contextlib
 import csv
@@ -39,6 +44,19 @@ DEFAULT_FMT = '%m/%d/%Y'
 KINDS = ['date', 'desc', 'amount', 'loc', 'custom', 'skip']
 CANON = {'date': 'date', 'desc': 'description', 'amount': 'amount', 'loc': 'location'}
 CUSTOM_POOL = ['merchant', 'type', 'memo', 'ref_no', 'x1', '_a', '__', 'a', 'payee2', 'ünï', 'ΑΣ', 'naïve_1']
+# Names a user gives a CUSTOM column that merely LOOK like a reserved word (date, description, amount, location, field, _): prefixes,
+# abbreviations, plurals, numbered / suffixed / prefixed variants, compounds, and Unicode look-alikes (long s, fullwidth letters, a
+# Cyrillic a, dotless i, the fi ligature) - and names that are prefixes / plurals of EACH OTHER.  None of them is reserved: each is an
+# ordinary capture at the position where it is written, in any letter case.
+NEAR_POOL = ['desc', 'descr', 'descript', 'descriptio', 'descriptions', 'description2', 'description_', '_description', 'desc_2', 'des', 'd',
+             'amt', 'amnt', 'amoun', 'amounts', 'amount_usd', 'amount2', 'amount_', '_amount', 'amt2', 'am',
+             'loc', 'locn', 'locat', 'locations', 'location2', 'location_', '_location', 'lo', 'l',
+             'dt', 'dat', 'dates', 'date2', 'date_', '_date', 'posted_date', 'trans_date', 'datetime',
+             'field1', 'fields', 'fiel', 'field_', '_field', 'f',
+             '_1', '_x', 'x_', '___', '_0',
+             'name', 'category', 'note', 'notes', 'ref', 'payee', 'vendor', 'acct',
+             'de\u017fcription', '\uff41\uff4d\uff4f\uff55\uff4e\uff54', 'd\u0430te', 'locat\u0131on', '\ufb01eld']
+NEAR_SET = {n.lower() for n in NEAR_POOL}
 DATE_FMTS = [None, None, '%m/%d/%Y', '%Y-%m-%d', '%d.%m.%Y', '%d %b %Y', '%m/%d/%y %H:%M', ' %Y', '{%Y', '%d %m', ':', 'x']
 PRES = ['', '', ' ', ' ', '  ', '\t', ' \t ', '\n', '\x0b\x0c', '\x1c\x1f', ' ', '  ', '　']
 RESTS = ['', '', '', '', ' ', '  \t', ' x', 'junk', '}', '{', ' {amount}', ' ', '  ', ':x']
@@ -68,12 +86,16 @@ def fmt_case(fmt, tmpl):
 def rand_case(r, s):
     mode = r.random()
     if mode < 0.4:
-        return s
-    if mode < 0.55:
-        return s.upper()
-    if mode < 0.7:
-        return s.capitalize()
-    return ''.join(c.upper() if r.random() < 0.5 else c for c in s)
+        v = s
+    elif mode < 0.55:
+        v = s.upper()
+    elif mode < 0.7:
+        v = s.capitalize()
+    else:
+        v = ''.join(c.upper() if r.random() < 0.5 else c for c in s)
+    # a letter-case variant is a spelling of the SAME name only when it lower-cases back to it (long s, dotless i and the fi ligature
+    # upper-case to plain S / I / FI: 'DESCRIPTION' is not a spelling of the custom name with a long s in it)
+    return v if v.lower() == s.lower() else s
 
 
 BLANKS = ['', '', ' ', ' ', '  ', '\t', ' \t ']
@@ -159,7 +181,7 @@ def expected(cols, tmpl):
 
 def fill(r, kinds, dup_custom=False):
     """abstract columns for a sequence of kinds: random date format / sign mode, distinct custom names"""
-    pool = list(CUSTOM_POOL)
+    pool = CUSTOM_POOL + NEAR_POOL
     r.shuffle(pool)
     cols, used = [], []
     for k in kinds:
@@ -196,6 +218,45 @@ def template_for(r, cols, variant=None):
     if v < 0.9:
         return '{' + names[0] + '} {' + r.choice(['other', names[0].upper() if names[0].upper() != names[0] else 'zz', 'date', 'description']) + '}'
     return '{{' + names[0] + '}} {' + names[-1] + '}x{' + names[0]
+
+
+# arrangement shapes for one near-miss name N and a partner capture P: (kinds, template, what the property says)
+NEAR_SHAPES = [
+    (['date', 'N', 'amount'], '{N}'),                                               # Mode 2, the template names it
+    (['date', 'N', 'P', 'amount'], '{P} ({N})'),
+    (['N', 'skip', 'date', 'amount', 'loc', 'P'], '{N} - {P}'),
+    (['amount', 'date', 'P', 'N'], '{N}'),                                          # P captured, not referenced
+    (['date', 'desc', 'N', 'amount'], None),                                        # Mode 1: an extra field
+    (['N', 'date', 'desc', 'amount', 'loc', 'P'], None),
+    (['date', 'desc', 'amount', 'loc', 'N'], None),                                 # next to all four reserved columns
+    (['loc', 'N', 'amount', 'desc', 'P', 'date'], None),
+    (['date', 'desc', 'N', 'amount'], '{N}'),                                       # extra fields are not template captures: rejected
+    (['date', 'N', 'amount'], None),                                                # capture without template: rejected
+    (['date', 'N', 'amount', 'N'], '{N}'),                                          # the same name twice (other letter case): rejected
+    (['date', 'N', 'amount'], '{N} {description}'),                                 # template names a reserved word: rejected
+    (['date', 'N', 'amount'], '{N} {P}'),                                           # template names an uncaptured relative: rejected
+]
+
+
+def gen_near_miss(r):
+    """every near-miss name as a custom capture (Mode 2, referenced by the description template) and as an extra field (Mode 1, next to
+    {description}), alone / with a partner capture drawn from the same pool (often a prefix or plural of it) / next to the real
+    reserved columns; canonical spelling and the property's spelling class (letter case, blanks, {_}/{*}).  yields (cols, fmt, tmpl, tag)"""
+    for n in NEAR_POOL:
+        family = [m for m in NEAR_POOL if m != n and (m.startswith(n[:2]) or n.startswith(m[:2]))] or NEAR_POOL
+        for kinds, tmpl in NEAR_SHAPES:
+            for canonical in (True, False):
+                partner = r.choice([m for m in (family if r.random() < 0.6 else CUSTOM_POOL + NEAR_POOL) if m.lower() != n.lower()])
+                cols = []
+                for k in kinds:
+                    c = {'k': 'custom', 'name': n if k == 'N' else partner} if k in ('N', 'P') else {'k': k}
+                    if k == 'date':
+                        c['fmt'] = r.choice(DATE_FMTS[:6])
+                    elif k == 'amount':
+                        c['mode'] = r.choice(['', '', '-', '+'])
+                    cols.append(spell(r, c, canonical=canonical, wide=False))
+                t = None if tmpl is None else tmpl.replace('{N}', '{' + n.lower() + '}').replace('{P}', '{' + partner.lower() + '}')
+                yield cols, render(cols), t, 'near-miss-names'
 
 
 def spec_of_impl(s):
@@ -488,10 +549,129 @@ def oracle_statement(bench, st):
     return rep, None, reads
 
 
+# the header keywords of auto_detect_csv_format as documented / as of the tree this check was written against.  The check reads the four
+# lists from the source on every run (the translator's extractor); this copy is used only when the extractor refuses the source (the
+# lists are no longer four literal assignments), so that the header streams and their oracle still run - a refused translator is a
+# broken obligation, never a reason for the check to stop.
+FROZEN_TABLES = {
+    'DATE_PATTERNS': ['date', 'trans date', 'transaction date', 'posting date', 'trans_date'],
+    'DESC_PATTERNS': ['description', 'merchant', 'payee', 'memo', 'name', 'merchant name'],
+    'AMOUNT_PATTERNS': ['amount', 'debit', 'charge', 'transaction amount', 'payment'],
+    'LOCATION_PATTERNS': ['location', 'city', 'state', 'city/state', 'region']}
+ROLE_ORDER = [('date', 'DATE_PATTERNS'), ('desc', 'DESC_PATTERNS'), ('amount', 'AMOUNT_PATTERNS'), ('location', 'LOCATION_PATTERNS')]
+
+
 def table_words():
-    t = fmt_tables.extract(common.read(os.path.join(common.SRC, 'format_parser.py')),
-                           common.read(os.path.join(common.SRC, 'parsers.py')))
-    return {k: t[k] for k in fmt_tables.TABLES}
+    """-> (the four keyword lists, where they come from)"""
+    try:
+        t = fmt_tables.extract(common.read(os.path.join(common.SRC, 'format_parser.py')),
+                               common.read(os.path.join(common.SRC, 'parsers.py')))
+        return {k: t[k] for k in fmt_tables.TABLES}, 'read from parsers.py'
+    except Exception as e:  # noqa: BLE001 - Untranslatable, SyntaxError, OSError: all mean "not readable as four literal lists"
+        return {k: list(v) for k, v in FROZEN_TABLES.items()}, f'frozen copy (extractor refused the source: {type(e).__name__}: {str(e)[:160]})'
+
+
+def roles_of(header, tables):
+    """the roles whose keyword list has a keyword inside the header (case-insensitive, surrounding blanks ignored)"""
+    h = header.lower().strip()
+    return [role for role, t in ROLE_ORDER if any(k in h for k in tables[t])]
+
+
+def first_fit(headers, tables):
+    """What header detection is REQUIRED to answer, stated role by role (never header by header, as the code does): the date column is
+    the first header with a date keyword; the description column is the first header with a description keyword that is not the date
+    column; the amount column the first header with an amount keyword that is neither of those; the location column likewise.  Every
+    header therefore serves at most one role, and which one does not depend on what stands to its right.  Date, description and amount
+    are required.  (Props/C18 `detect_first_fit` proves this characterisation for Impl.detect, for every header row.)"""
+    if not headers:
+        return {'err': 'ValueError'}
+    matched = [roles_of(h, tables) for h in headers]
+    col, used = {}, set()
+    for role, _ in ROLE_ORDER:
+        col[role] = next((i for i in range(len(headers)) if i not in used and role in matched[i]), None)
+        if col[role] is not None:
+            used.add(col[role])
+    if col['date'] is None or col['desc'] is None or col['amount'] is None:
+        return {'err': 'ValueError'}
+    return {'ok': {'date': col['date'], 'date_format': DEFAULT_FMT, 'desc': col['desc'], 'amount': col['amount'], 'location': col['location']}}
+
+
+def oracle_detection(headers_read, observed, tables):
+    """detection on the implementation alone: what auto_detect_csv_format answered for the header row csv.reader (trusted) yields vs the
+    first fit; and, whatever the keyword lists are, no column may serve two roles.  -> (class, required) or None"""
+    o = observed.get('ok')
+    if o:
+        cols = [o['date'], o['desc'], o['amount']] + ([o['location']] if o['location'] is not None else [])
+        if len(set(cols)) != len(cols):
+            return 'one-header-detected-for-two-roles', 'date / description / amount / location columns pairwise distinct'
+    want = first_fit(headers_read, tables)
+    if ('ok' in want) != ('ok' in observed) or ('err' in want and observed.get('err') != 'ValueError'):
+        return ('detects-a-format-where-a-required-role-has-no-header' if 'ok' in observed else 'detection-fails-though-every-role-has-a-header'
+                if 'ok' in want else 'wrong-exception'), want
+    if 'ok' in want and {k: o[k] for k in want['ok']} != want['ok']:
+        return 'detects-other-columns-than-the-first-fit', want
+    return None
+
+
+def gen_multirole(r, tables):
+    """header rows in which some headers carry keywords of SEVERAL roles ('Payment Date', 'Debit Description', 'Merchant Name Date',
+    'City Name', 'Transaction Amount Date' ...), placed before the plain headers (the roles involved still unfilled), after them (already
+    filled) or anywhere, among plain one-role headers and neutral columns; sometimes a required role has no plain header, so that it is
+    served by a several-role header or by nothing (detection then has to fail, not crash).  -> (headers, info)"""
+    tn = [t for _, t in ROLE_ORDER]
+
+    def case(w):
+        return r.choice([w.title(), w.title(), w, w.upper()])
+
+    def multi():
+        rs = r.sample(tn, r.choice([2, 2, 2, 3]))
+        ws = [r.choice(tables[t]) for t in rs]
+        return case(r.choice([' ', ' ', ' ', '/', '_', ' of ', ' - ', '']).join(ws))
+
+    multis = [multi() for _ in range(r.choice([1, 1, 2, 3]))]
+    plain = []
+    drop = r.choice(tn[:3]) if r.random() < 0.35 else None
+    for t in tn:
+        if t == drop or (t == 'LOCATION_PATTERNS' and r.random() < 0.6):
+            continue
+        plain.append(case(r.choice(tables[t])))
+        if r.random() < 0.15:
+            plain.append(case(r.choice(tables[t])))
+    plain += [r.choice(NEUTRAL).title() for _ in range(r.choice([0, 0, 1, 2]))]
+    r.shuffle(plain)
+    layout = r.choice(['several-role headers first', 'several-role headers last', 'anywhere'])
+    if layout == 'several-role headers first':
+        hs = multis + plain
+    elif layout == 'several-role headers last':
+        hs = plain + multis
+    else:
+        hs = multis + plain
+        r.shuffle(hs)
+    return hs, layout
+
+
+def multirole_stat(headers, tables, stat):
+    """counts for the evidence: for every header that matches the keyword lists of two or more roles, whether the roles it matches were
+    still unfilled when it was reached (by the first fit)"""
+    want = first_fit(headers, tables).get('ok')
+    matched = [roles_of(h, tables) for h in headers]
+    # the first-fit assignment also when a required role is missing
+    col, used = {}, set()
+    for role, _ in ROLE_ORDER:
+        col[role] = next((i for i in range(len(headers)) if i not in used and role in matched[i]), None)
+        if col[role] is not None:
+            used.add(col[role])
+    for i, m in enumerate(matched):
+        if len(m) < 2:
+            continue
+        stat['headers_matching_%d_roles' % min(len(m), 3)] += 1
+        stat['pairs'][' + '.join(m)] = stat['pairs'].get(' + '.join(m), 0) + 1
+        filled = [x for x in m if col[x] is not None and col[x] < i]
+        stat['reached_with_all_its_roles_unfilled' if not filled else
+             'reached_with_all_its_roles_filled' if len(filled) == len(m) else 'reached_with_some_of_its_roles_filled'] += 1
+        stat['serves_a_role'] += i in used
+    stat['rows'] += 1
+    stat['required_detected' if want else 'required_to_fail_a_required_role_has_no_header'] += 1
 
 
 NEUTRAL = ['', 'id', 'balance', 'reference', 'type', 'check no', 'category', 'notes', '#', 'currency', 'ccy', 'état', 'Betrag']
@@ -607,6 +787,7 @@ def gen_fmt_stream(r, quick):
         n = r.choice([3, 4, 6, 8, 8, 12, 20, 40])
         cols = [spell(r, c, wide=(i % 2 == 1)) for c in fill(r, rand_kinds(r, n), dup_custom=r.random() < 0.15)]
         yield cols, render(cols), template_for(r, cols), 'random-wide' if i % 2 else 'random'
+    yield from gen_near_miss(r)
     for a in BAD_TOKENS:
         yield None, a, None, 'bad-token'
         yield None, '{date}, {description}, {amount}, ' + a, None, 'bad-token'
@@ -638,7 +819,13 @@ def _run(ctx, r, bench):
         elif 'statement' in ce:
             _, f, _ = oracle_statement(bench, ce['statement'])
         elif 'headers' in ce:
-            _, f = oracle_inspect(bench, ce['headers'], ce['rows'], ce.get('raw'))
+            _, f = oracle_inspect(bench, ce['headers'], ce['rows'], ce.get('raw'))       # (writes the file)
+            if not f:
+                hl = bench.read_headers() or []
+                got = impl_detect(bench.path)
+                bad = oracle_detection(hl, got, table_words()[0])
+                if bad:
+                    f = dict(ce, **{'class': bad[0], 'observed': got, 'required': bad[1], 'headers_read': hl})
         else:
             f = None
             print(f'[C18] replay file holds no counterexample (kind={rp.get("kind")}); re-running the check instead')
@@ -673,6 +860,9 @@ def _run(ctx, r, bench):
     corr = []
     nontrivial = set()
     n_ok = 0
+    near_names = set()
+    near_stat = {'arrangements_with_a_near_miss_name': 0, 'in_the_systematic_stream': 0, 'required_custom_capture_mode2': 0,
+                 'required_extra_field_mode1': 0, 'next_to_the_reserved_column_it_resembles': 0}
     try:
         model = drv.batch(cases)
     except Exception as e:  # noqa: BLE001
@@ -702,11 +892,25 @@ def _run(ctx, r, bench):
             f = oracle_arrangement(cols, tmpl)
             if f:
                 prop_fail.append(f)
+            near_here = {x['sp']['name'].lower() for x in cols if x['k'] == 'custom'} & NEAR_SET
+            if near_here:
+                want = expected(cols, tmpl)
+                near_stat['arrangements_with_a_near_miss_name'] += 1
+                near_stat['in_the_systematic_stream'] += tag == 'near-miss-names'
+                if want[0] == 'ok':
+                    near_stat['required_custom_capture_mode2' if want[1]['custom_captures'] else 'required_extra_field_mode1'] += 1
+                    near_stat['next_to_the_reserved_column_it_resembles'] += any(
+                        CANON[y['k']].startswith(n[:2]) or n.lstrip('_').startswith(CANON[y['k']][:2])
+                        for n in near_here for y in cols if y['k'] in CANON)
+                else:
+                    near_stat['required_rejected:' + want[1]] = near_stat.get('required_rejected:' + want[1], 0) + 1
+                near_names.update(near_here)
     ctx.obligation('correspondence:parse_format_string-vs-Impl.parseFormat', 'correspondence', not corr, cases=len(cases),
                    error=json.dumps(corr[0], default=str)[:1500] if corr else None)
     n_fmt = len(cases)
     ctx.notes['fmt_outcome_histogram'] = hist
     ctx.notes['fmt_accepted'] = n_ok
+    ctx.notes['near_miss_custom_names'] = dict(near_stat, names_in_the_pool=len(NEAR_POOL), names_exercised=len(near_names))
     for c in cases[40:44]:
         ctx.sample({'format': c['format'], 'template': c['template']})
 
@@ -717,7 +921,8 @@ def _run(ctx, r, bench):
     ctx.notes['excluded_date_formats_on_real_code'] = excl
 
     # ---- stream 2: auto_detect_csv_format + cmd_inspect on real files vs Impl.detect / Impl.suggest
-    tables = table_words()
+    tables, tables_origin = table_words()
+    ctx.notes['header_keyword_lists'] = tables_origin
     rows_h = []
     for role, ws in tables.items():          # every keyword alone, and with the other roles filled in
         for w in ws:
@@ -774,6 +979,39 @@ def _run(ctx, r, bench):
             st_stat['suggestion_names_the_format_the_dates_were_written_with'] += 1
             st_stat['transactions_read_back'] += sum(1 for t in st['truth'] if t['date'] is not None)
     ctx.notes['statement_files'] = st_stat
+    # ---- stream 2c: headers with keywords of SEVERAL roles, where the roles are still unfilled / already filled, among plain headers
+    mr_stat = {'rows': 0, 'headers_matching_2_roles': 0, 'headers_matching_3_roles': 0, 'reached_with_all_its_roles_unfilled': 0,
+               'reached_with_some_of_its_roles_filled': 0, 'reached_with_all_its_roles_filled': 0, 'serves_a_role': 0,
+               'required_detected': 0, 'required_to_fail_a_required_role_has_no_header': 0, 'inspect_suggestions_roundtripped': 0,
+               'inspect_reports_no_format': 0, 'layouts': {}, 'pairs': {}}
+    for i in range(260 if quick else 8000):
+        hs, layout = gen_multirole(r, tables)
+        data = gen_rows(r, len(hs))
+        rep, f = oracle_inspect(bench, hs, data)
+        if f:
+            prop_fail.append(f)
+        hl = bench.read_headers() or []
+        dimpl.append(impl_detect(bench.path))
+        dcases.append({'op': 'detect', 'headers': hl, 'ext': ext_of(hl, hl)})
+        dinsp.append(rep)
+        dmeta.append((hs, data, None))
+        multirole_stat(hl, tables, mr_stat)
+        mr_stat['layouts'][layout] = mr_stat['layouts'].get(layout, 0) + 1
+        mr_stat['inspect_suggestions_roundtripped'] += bool(rep.get('detected'))
+        mr_stat['inspect_reports_no_format'] += rep.get('detected') is False
+    ctx.notes['headers_with_keywords_of_several_roles'] = mr_stat
+    # ---- detection on the implementation alone, every header row of streams 2 / 2b / 2c: the first fit, one role per header
+    det_stat = {'rows': len(dcases), 'required_detected': 0, 'required_to_fail': 0, 'rows_with_a_header_matching_several_roles': 0}
+    for i, c in enumerate(dcases):
+        bad = oracle_detection(c['headers'], dimpl[i], tables)
+        want = first_fit(c['headers'], tables)
+        det_stat['required_detected' if 'ok' in want else 'required_to_fail'] += 1
+        det_stat['rows_with_a_header_matching_several_roles'] += any(len(roles_of(h, tables)) > 1 for h in c['headers'])
+        if bad:
+            hs, data, raw = dmeta[i]
+            prop_fail.append({'class': bad[0], 'headers': hs, 'rows': data, 'raw': raw, 'headers_read': c['headers'],
+                              'observed': dimpl[i], 'required': bad[1], 'keyword_lists': tables_origin})
+    ctx.notes['detection_oracle'] = det_stat
     corr, corr_s = [], []
     n_detected = n_inspected = n_roundtrip = 0
     det_nontrivial = set()
@@ -868,7 +1106,30 @@ def _run(ctx, r, bench):
         'cells, descriptions with commas and quotes; required: the suggestion is accepted, gives back the date format and the columns '
         'inspect reported, selects from every data row the statement\'s own date / description / amount cells, and - when it names '
         'the format the dates were written with - parse_generic_csv reads exactly the statement\'s transactions with it '
-        '(counts in coverage.statement_files). non-trivial (format) = '
+        '(counts in coverage.statement_files). custom column names that LOOK reserved: '
+        f'{len(NEAR_POOL)} prefixes / abbreviations / plurals / numbered, suffixed and prefixed variants / compounds / Unicode look-alikes of '
+        'date, description, amount, location, field and _ (desc, descr, descriptions, description2, amt, amounts, amount_usd, loc, locations, '
+        'dt, dates, posted_date, field1, fields, _1, ___, long-s / fullwidth / Cyrillic / dotless-i / ligature spellings ...) and of each '
+        f'other, drawn for {near_stat["arrangements_with_a_near_miss_name"]} oracle-checked arrangements of every stream and each used '
+        f'systematically ({near_stat["in_the_systematic_stream"]} arrangements: Mode 2 with a description template that references it, '
+        'Mode 1 as an extra field, next to the real reserved columns, with a partner capture that is a prefix / plural of it, any letter '
+        'case; and the rejections: capture without template, template on extra fields, the name twice in two letter cases, template naming '
+        'the reserved word or an uncaptured relative); required: an ordinary capture at its written position '
+        f'(Mode 2 captures {near_stat["required_custom_capture_mode2"]}, Mode 1 extra fields {near_stat["required_extra_field_mode1"]}, '
+        f'{near_stat["next_to_the_reserved_column_it_resembles"]} of them next to the reserved column they resemble), mode unchanged, template '
+        'accepted, reserved columns where written (counts in coverage.near_miss_custom_names; Props/C18 '
+        'nonreserved_name_is_captured_at_its_position). headers with keywords of SEVERAL roles: '
+        f'{mr_stat["rows"]} rows with {mr_stat["headers_matching_2_roles"]} two-role and {mr_stat["headers_matching_3_roles"]} three-role '
+        'headers (Payment Date, Debit Description, Merchant Name Date, City Name, Transaction Amount/Date ...: every pair and triple of '
+        f'roles), reached with all their roles unfilled ({mr_stat["reached_with_all_its_roles_unfilled"]}), some filled '
+        f'({mr_stat["reached_with_some_of_its_roles_filled"]}) or all filled ({mr_stat["reached_with_all_its_roles_filled"]}), among plain '
+        f'one-role and neutral headers; {mr_stat["required_to_fail_a_required_role_has_no_header"]} rows where a required role has no '
+        'header left (detection must fail with ValueError / inspect must say so, not crash). detection oracle on ALL '
+        f'{det_stat["rows"]} header rows of the file streams ({det_stat["rows_with_a_header_matching_several_roles"]} with a several-role '
+        'header): the detected columns are pairwise distinct and are the FIRST FIT stated role by role (date = first header with a date '
+        'keyword; description = first other header with a description keyword; amount, location likewise; Props/C18 detect_first_fit), '
+        f'keyword lists {tables_origin} (counts in coverage.headers_with_keywords_of_several_roles / detection_oracle). '
+        'non-trivial (format) = '
         'accepted with the date not in column 0 and a custom / extra / location column or a required column beyond '
         'index 2, or rejected for a duplicate / missing field / template reason at a column > 0; non-trivial (headers) = '
         'detected with the date not first or the three roles out of order')
@@ -887,10 +1148,17 @@ def _run(ctx, r, bench):
             if out:
                 break
         cnt = 0
-        for _ in range(3000):
-            hs = gen_headers(rr, tables)
-            _, f = oracle_inspect(bench, hs, gen_rows(rr, len(hs)))
+        for i in range(3000):
+            hs = gen_headers(rr, tables) if i % 2 else gen_multirole(rr, tables)[0]
+            rows = gen_rows(rr, len(hs))
+            _, f = oracle_inspect(bench, hs, rows)
             cnt += 1
+            if not f:
+                hl = bench.read_headers() or []
+                got = impl_detect(bench.path)
+                bad = oracle_detection(hl, got, tables)
+                if bad:
+                    f = {'class': bad[0], 'headers': hs, 'rows': rows, 'raw': None, 'headers_read': hl, 'observed': got, 'required': bad[1]}
             if f:
                 out.append(f)
                 break
@@ -914,7 +1182,10 @@ def classify(failure):
 REQUIRED = ('the format string listing an arrangement in order parses to exactly those column positions, date format and '
             'sign mode; a missing required field, a duplicate, a custom capture without template or a template naming an '
             'uncaptured column raises ValueError; the format string inspect suggests is accepted and selects the same '
-            'date / description / amount columns (and gives back the date format) inspect reported, whatever the data rows look like')
+            'date / description / amount columns (and gives back the date format) inspect reported, whatever the data rows look like; '
+            'a custom column is a capture at its written position whatever its name resembles (only the reserved names are special); '
+            'header detection gives every header at most one role - the first fit, role by role - so the reported columns are pairwise '
+            'distinct, and fails with ValueError (inspect: no suggestion) when a required role has no header')
 EXTRA_TRUSTED = [
     'table translator harness/translate/fmt_tables.py (reserved names, required fields, default date formats, header keyword '
     'tables; pins the two regular expressions textually)',
